@@ -61,12 +61,12 @@ func ParseVersion(ver string) (Version, error) {
 		return VersionUndefined, nil
 	}
 
-	intVersion, err := strconv.ParseInt(ver, 10, 64)
+	intVersion, err := strconv.ParseUint(ver, 10, 64)
 	if err != nil {
 		return VersionUndefined, fmt.Errorf("error parsing version: %w", err)
 	}
 
 	return Version{
-		uint64: new(uint64(intVersion)),
+		uint64: new(intVersion),
 	}, nil
 }
